@@ -1,6 +1,6 @@
 (* Case runner for C12: class predicates evaluated in Coq. *)
 From Coq Require Import List String Bool.
-From RashV Require Import Sexp Tpl HelpDoc.
+From RashV Require Import Sexp Tpl HelpDoc UsageDoc.
 Import ListNotations.
 Open Scope string_scope.
 
@@ -19,5 +19,16 @@ Definition run_plain (e : sexp) : option sexp :=
 Definition run_helpdoc (e : sexp) : option sexp :=
   match e with
   | SList [Atom "helpdoc"; f] => option_map (fun f => bytes_atom (parse_help f)) (atom_bytes f)
+  | _ => None
+  end.
+
+(* (usagedoc xFILE) -> none | (xPATTERN ...) : the usage patterns docopt::parse_usage reads from a script *)
+Definition run_usagedoc (e : sexp) : option sexp :=
+  match e with
+  | SList [Atom "usagedoc"; f] =>
+      option_map (fun f => match usages_of_file f with
+                           | None => Atom "none"
+                           | Some l => SList (Atom "usages" :: map bytes_atom l)
+                           end) (atom_bytes f)
   | _ => None
   end.
